@@ -141,7 +141,7 @@ def check(chk):
     cfg = f.cfg()
     setf = [n for n in cfg.nodes_where(lambda n: n.kind == "stmt" and isinstance(n.ast, ast.Assign) and src(n.ast.targets[0]) == "self._starting"
                                        and src(n.ast.value) == "True")]
-    chk.require(setf, "C07: Mode.start no longer sets _starting")
+    chk.need(setf, "FLAG-1", "Mode.start marks the mode as starting", f)
     g = cfg.guards_at(setf[0].id)
     chk.ob("FLAG-1", "start is accepted only when neither active nor starting", g.get("self._active") is False and g.get("self._starting") is False,
            f.where(setf[0].ast), detail="guards %s" % sorted(g.items()), construct=f.ident, text="start guards")
@@ -170,7 +170,7 @@ def check(chk):
     cfg = f.cfg()
     mark = [n for n in cfg.nodes_where(lambda n: n.kind == "stmt" and isinstance(n.ast, ast.Assign) and src(n.ast.targets[0]) == "self.stopping"
                                        and src(n.ast.value) == "True")]
-    chk.require(mark, "C07: Mode.stop no longer marks stopping")
+    chk.need(mark, "FLAG-1", "Mode.stop marks the mode as stopping", f)
     g = cfg.guards_at(mark[0].id)
     chk.ob("FLAG-1", "stop is accepted only when active and not already stopping", g.get("self._active") is True and g.get("self.stopping") is False,
            f.where(mark[0].ast), detail="guards %s" % sorted(g.items()), construct=f.ident, text="stop guards")
